@@ -7,13 +7,15 @@ import (
 	"go/ast"
 	"go/token"
 	"go/types"
+	"os"
 	"sort"
 	"strings"
 )
 
 type loopCtx struct {
-	ord       int           // loop ordinal (-1: switch/select pseudo loops)
-	lc        *LoopContract // contract of the loop (Returns clauses are checked at returns inside it)
+	exitSites map[*ast.BranchStmt]int // break/continue statements that leave this loop early, numbered in source order
+	ord       int                     // loop ordinal (-1: switch/select pseudo loops)
+	lc        *LoopContract           // contract of the loop (Returns clauses are checked at returns inside it)
 	label     string
 	breaks    []*State
 	continues []*State
@@ -352,6 +354,7 @@ func (u *Unit) assignedVars(n ast.Node) []*types.Var {
 func (u *Unit) loopHeapEffects(n ast.Node) (all bool, some map[string]bool) {
 	some = map[string]bool{}
 	seenLit := map[*ast.FuncLit]bool{}
+	seenDecl := map[*ast.FuncDecl]bool{}
 	var visit func(n ast.Node) bool
 	visit = func(n ast.Node) bool {
 		switch n := n.(type) {
@@ -388,7 +391,15 @@ func (u *Unit) loopHeapEffects(n ast.Node) (all bool, some map[string]bool) {
 								some[u.elemHeap(sl.Elem())] = true
 							}
 						}
-					case "delete", "clear":
+					case "clear":
+						if t := u.typeOf(n.Args[0]); t != nil {
+							if sl, ok := t.Underlying().(*types.Slice); ok {
+								some[u.elemHeap(sl.Elem())] = true
+								return true
+							}
+						}
+						all = true
+					case "delete":
 						all = true
 					}
 					return true
@@ -431,7 +442,7 @@ func (u *Unit) loopHeapEffects(n ast.Node) (all bool, some map[string]bool) {
 				if len(ct.Modifies) > 0 {
 					sig := callee.Type().(*types.Signature)
 					for _, m := range ct.Modifies {
-						if !u.modifiesHeap(sig, m, some) {
+						if !u.modifiesHeap(callee, sig, m, some) {
 							all = true
 						}
 					}
@@ -443,6 +454,15 @@ func (u *Unit) loopHeapEffects(n ast.Node) (all bool, some map[string]bool) {
 					}
 				}
 				return true
+			}
+			if callee.Pkg() == u.pkg.Types && u.eng.isNewFunc(u.pkgName, calleeKey(callee.Origin())) {
+				// a helper added after the contracts were written is executed inline at the call: its effects are
+				// those of its body
+				if fd, _ := u.eng.findFunc(u.pkg, calleeKey(callee.Origin())); fd != nil && fd.Body != nil && !seenDecl[fd] && len(seenDecl) < 16 {
+					seenDecl[fd] = true
+					ast.Inspect(fd.Body, visit)
+					return true
+				}
 			}
 			if eff, known := libEffects(callee); known {
 				for _, h := range eff {
@@ -505,6 +525,110 @@ func (u *Unit) loopHeapEffects(n ast.Node) (all bool, some map[string]bool) {
 	return
 }
 
+// exitSitesOf: the break / continue statements inside the loop `node` (a for/range statement or its body; labelled `label`)
+// that leave THIS loop before its condition ends it: `break` of the loop itself, and any break/continue that targets an
+// enclosing statement. Numbered in source order. Function literals are not entered.
+func exitSitesOf(node ast.Node, label string) map[*ast.BranchStmt]int {
+	var body *ast.BlockStmt
+	switch x := node.(type) {
+	case *ast.ForStmt:
+		body = x.Body
+	case *ast.RangeStmt:
+		body = x.Body
+	case *ast.BlockStmt:
+		body = x
+	}
+	out := map[*ast.BranchStmt]int{}
+	if body == nil {
+		return out
+	}
+	type frame struct {
+		label     string
+		isLoop    bool // for / range (continue target)
+		breakable bool
+	}
+	var stack []frame // nested breakable statements INSIDE the loop body
+	var walk func(n ast.Node, lbl string)
+	walkList := func(l []ast.Stmt) {
+		for _, s := range l {
+			walk(s, "")
+		}
+	}
+	walk = func(n ast.Node, lbl string) {
+		switch x := n.(type) {
+		case nil:
+			return
+		case *ast.FuncLit:
+			return
+		case *ast.LabeledStmt:
+			walk(x.Stmt, x.Label.Name)
+		case *ast.ForStmt:
+			stack = append(stack, frame{lbl, true, true})
+			walkList(x.Body.List)
+			stack = stack[:len(stack)-1]
+		case *ast.RangeStmt:
+			stack = append(stack, frame{lbl, true, true})
+			walkList(x.Body.List)
+			stack = stack[:len(stack)-1]
+		case *ast.SwitchStmt:
+			stack = append(stack, frame{lbl, false, true})
+			walkList(x.Body.List)
+			stack = stack[:len(stack)-1]
+		case *ast.TypeSwitchStmt:
+			stack = append(stack, frame{lbl, false, true})
+			walkList(x.Body.List)
+			stack = stack[:len(stack)-1]
+		case *ast.SelectStmt:
+			stack = append(stack, frame{lbl, false, true})
+			walkList(x.Body.List)
+			stack = stack[:len(stack)-1]
+		case *ast.CaseClause:
+			walkList(x.Body)
+		case *ast.CommClause:
+			walkList(x.Body)
+		case *ast.BlockStmt:
+			walkList(x.List)
+		case *ast.IfStmt:
+			walk(x.Body, "")
+			walk(x.Else, "")
+		case *ast.BranchStmt:
+			if x.Tok != token.BREAK && x.Tok != token.CONTINUE {
+				return
+			}
+			exits := false
+			if x.Label != nil {
+				nested := false
+				for _, f := range stack {
+					if f.label == x.Label.Name {
+						nested = true
+					}
+				}
+				if !nested {
+					// the loop itself (break only) or an enclosing statement
+					exits = !(x.Label.Name == label && x.Tok == token.CONTINUE)
+				}
+			} else {
+				// innermost target inside the body?
+				found := false
+				for i := len(stack) - 1; i >= 0; i-- {
+					if x.Tok == token.BREAK && stack[i].breakable || x.Tok == token.CONTINUE && stack[i].isLoop {
+						found = true
+						break
+					}
+				}
+				if !found {
+					exits = x.Tok == token.BREAK // an unlabelled continue of this loop is not an exit
+				}
+			}
+			if exits {
+				out[x] = len(out)
+			}
+		}
+	}
+	walkList(body.List)
+	return out
+}
+
 // hasGoStmt: the function under verification spawns a goroutine somewhere in its body.
 func (u *Unit) hasGoStmt() bool {
 	if u.goScan == 0 {
@@ -528,7 +652,7 @@ func (u *Unit) cellHeapName(pointee types.Type) string {
 	return u.ptrHeap(pointee)
 }
 
-func (u *Unit) modifiesHeap(sig *types.Signature, m Clause, some map[string]bool) bool {
+func (u *Unit) modifiesHeap(callee *types.Func, sig *types.Signature, m Clause, some map[string]bool) bool {
 	if name, _, ok := ghostModifies(m); ok {
 		some[u.ghostHeap(name)] = true
 		return true
@@ -557,6 +681,19 @@ func (u *Unit) modifiesHeap(sig *types.Signature, m Clause, some map[string]bool
 	for i := 0; i < sig.Params().Len(); i++ {
 		if sig.Params().At(i).Name() == id.Name {
 			t = sig.Params().At(i).Type()
+		}
+	}
+	if t == nil {
+		// a parameter renamed since the contract was written: by recorded position (bindings.go)
+		if fb := u.eng.sigBindings(callee); fb != nil {
+			if sig.Recv() != nil && fb.Recv == id.Name {
+				t = sig.Recv().Type()
+			}
+			for i := 0; i < sig.Params().Len() && i < len(fb.Params); i++ {
+				if fb.Params[i] == id.Name {
+					t = sig.Params().At(i).Type()
+				}
+			}
 		}
 	}
 	if t == nil {
@@ -882,6 +1019,24 @@ func (u *Unit) exec(st *State, s ast.Stmt) *State {
 		if s.Label != nil {
 			label = s.Label.Name
 		}
+		// `loop N exit#k <cond>`: every loop that this statement leaves early and that states exit reasons
+		for _, lx := range u.loopStack {
+			if lx.exitSites == nil || lx.lc == nil {
+				continue
+			}
+			k, isExit := lx.exitSites[s]
+			if !isExit {
+				continue
+			}
+			env := u.invEnv(st, s.Pos())
+			cls := lx.lc.Exits[k]
+			if len(cls) == 0 {
+				u.emit(st, "inv", fmt.Sprintf("loop-exit#%d.%d", lx.ord, k), fmt.Sprintf("loop %d is left here (exit site %d) without a stated reason", lx.ord, k), s.Pos(), "false")
+			}
+			for i, cl := range cls {
+				u.emit(st, "inv", fmt.Sprintf("loop-exit#%d.%d.%d", lx.ord, k, i), fmt.Sprintf("reason for leaving loop %d at exit site %d: %s", lx.ord, k, cl.Text), s.Pos(), env.evalBool(cl.Expr))
+			}
+		}
 		switch s.Tok {
 		case token.BREAK:
 			for i := len(u.loopStack) - 1; i >= 0; i-- {
@@ -1137,6 +1292,9 @@ func (u *Unit) checkPost(st *State, pos token.Pos) {
 			names[rv.Name()] = t
 		}
 	}
+	if u.obj != nil && u.sig != nil {
+		u.eng.aliasSigNames(names, u.obj, u.sig, "results")
+	}
 	if u.ct != nil {
 		env := &SpecEnv{u: u, st: st, old: u.entry, names: names, cs: u.cs, pkg: u.pkg.Types, own: true, scopePos: u.endPos}
 		for i, en := range u.ct.Ensures {
@@ -1294,9 +1452,14 @@ func (u *Unit) frameGoals(st *State, only map[string]bool) []frameGoal {
 
 // ---------- loops ----------
 
-func (u *Unit) loopContract() (*LoopContract, int) {
+func (u *Unit) loopContract(stmt ast.Stmt) (*LoopContract, int) {
 	n := u.loopOrd
 	u.loopOrd++
+	n0 := n
+	n = u.baseLoop(stmt, n)
+	if os.Getenv("VCGO_DEBUG_LOOPS") != "" {
+		fmt.Fprintf(os.Stderr, "loop exec#%d -> contract#%d at %s (%s)\n", n0, n, u.fset.Position(stmt.Pos()), u.key)
+	}
 	if u.ct != nil {
 		if lc, ok := u.ct.Loops[n]; ok {
 			u.loopsSeen[n] = true
@@ -1432,7 +1595,21 @@ func (u *Unit) execFor(st *State, s *ast.ForStmt, label string) *State {
 			return nil
 		}
 	}
-	lc, n := u.loopContract()
+	lc, n := u.loopContract(s)
+	if as, ok := s.Init.(*ast.AssignStmt); ok && as.Tok == token.DEFINE && len(as.Lhs) == 1 && len(as.Rhs) == 1 {
+		if inc, ok := s.Post.(*ast.IncDecStmt); ok && inc.Tok == token.INC {
+			id, _ := as.Lhs[0].(*ast.Ident)
+			pid, _ := ast.Unparen(inc.X).(*ast.Ident)
+			if lit, isLit := as.Rhs[0].(*ast.BasicLit); id != nil && pid != nil && isLit && lit.Value == "0" {
+				if v, ok := u.info.Defs[id].(*types.Var); ok && u.info.Uses[pid] == v {
+					if u.forIdxVars == nil {
+						u.forIdxVars = map[int]*types.Var{}
+					}
+					u.forIdxVars[n] = v
+				}
+			}
+		}
+	}
 	bodyNode := &ast.BlockStmt{List: append([]ast.Stmt{}, s.Body.List...)}
 	if s.Post != nil {
 		bodyNode.List = append(bodyNode.List, s.Post)
@@ -1505,6 +1682,9 @@ func (u *Unit) runLoop(st *State, lc *LoopContract, n int, label string, pos, bo
 		u.emitExpect(in, "canary", fmt.Sprintf("cover-loop#%d", n), "loop body reachable under the invariant", pos, "false", "sat")
 	}
 	lctx := &loopCtx{label: label, ord: n, lc: lc}
+	if len(lc.Exits) > 0 {
+		lctx.exitSites = exitSitesOf(havocNode, label)
+	}
 	u.loopStack = append(u.loopStack, lctx)
 	after := body(in)
 	u.loopStack = u.loopStack[:len(u.loopStack)-1]
@@ -1556,7 +1736,7 @@ func (u *Unit) toIdxSpec(t Term) string {
 func (u *Unit) execRange(st *State, s *ast.RangeStmt, label string) *State {
 	xt := u.typeOf(s.X)
 	c := u.c
-	lc, n := u.loopContract()
+	lc, n := u.loopContract(s)
 	var keyVar, valVar *types.Var
 	getVar := func(e ast.Expr) *types.Var {
 		if e == nil {
@@ -1631,7 +1811,8 @@ func (u *Unit) execRange(st *State, s *ast.RangeStmt, label string) *State {
 			return and(c.idxLe(c.idxConst(0), i), c.idxLe(i, lnSaved))
 		}
 		// the implicit bound is assumed at the head via a synthetic invariant
-		lc2 := &LoopContract{Invariants: lc.Invariants, Decreases: lc.Decreases, Uses: lc.Uses}
+		lc2c := *lc // every clause kind (entry / step / returns / exit#k too)
+		lc2 := &lc2c
 		return u.runLoopImplicit(st, lc2, n, label, s.Pos(), s.Body.Pos(), s.Body, implicitInv,
 			func(st *State) (string, bool) { return c.idxLt(idxOf(st), lnSaved), true },
 			func(st *State) *State {
@@ -2283,6 +2464,10 @@ func (u *Unit) execDeclInline(st *State, e *ast.CallExpr, callee *types.Func, fd
 	if rs == nil {
 		rs = []Term{}
 	}
-	u.c.note("call of %s executed inline (contract directive `inline`)", callee.Name())
+	if ct, _ := u.eng.contractFor(callee); ct != nil && ct.Inline {
+		u.c.note("call of %s executed inline (contract directive `inline`)", callee.Name())
+	} else {
+		u.c.note("call of %s executed inline (function added after the contracts were written, baseline bindings)", callee.Name())
+	}
 	return resultTerm(rs)
 }
